@@ -203,8 +203,11 @@ def gen_new(rng):
     else:
         cls = rng.choice(CLASSES[1:])
         ndim = REQ[cls]
-        if rng.chance(0.06):
-            ndim = max(1, ndim + rng.choice([-1, -1, 1]))   # expand_dims / ValueError branches
+        r2 = rng.random()
+        if r2 < 0.15:
+            ndim = max(1, ndim - rng.randint(1, 3))         # data 1, 2 or 3 axes short: expand_dims branch, k missing axes
+        elif r2 < 0.18:
+            ndim = ndim + 1                                 # ValueError branch
     shape = gen_shape(rng, ndim)
     a = gen_array(rng, shape)
     nd_eff = REQ[cls] if REQ[cls] is not None and ndim < REQ[cls] else ndim
@@ -312,7 +315,7 @@ def gen_op(rng, ds):
         op["v"] = gen_units(rng, ndim, malformed=0.15)
     elif kind == "set_array":
         r = rng.random()
-        nd2 = ndim if r < 0.8 else (max(1, ndim - 1) if r < 0.92 else ndim + 1)
+        nd2 = ndim if r < 0.75 else (max(1, ndim - rng.randint(1, 3)) if r < 0.93 else ndim + 1)   # 1..3 axes short / one too many
         a = gen_array(rng, gen_shape(rng, nd2))
         op["array"] = arr_json(a)
         op["dtype"] = a.dtype.name
@@ -860,11 +863,48 @@ def run_systematic(ctx, drv, depth):
         ctx.dist[f"systematic:depth{depth}:{cls}"] += n
 
 
+def run_expand(ctx, drv):
+    """every container class x data 1, 2, 3 axes short x (scalar-broadcast | per-axis | default) calibration, through
+    `from_array` and through the `array` setter (also on base Datasets of ndim 2..5): the coherence clause is evaluated on the
+    resulting object (run_history does it after every step) and the state is compared with the model's expand-dims branch."""
+    n = 0
+    for cls in CLASSES[1:] + ["Dataset"]:
+        reqs = [REQ[cls]] if REQ[cls] is not None else [2, 3, 4, 5]
+        for nd in reqs:
+            for short in (1, 2, 3):
+                if nd - short < 1:
+                    continue
+                small = [2, 3, 2, 3, 2][: nd - short]
+                full = [2, 3, 2, 2, 3][:nd]
+                a_small = (np.arange(int(np.prod(small)), dtype=np.int16).reshape(small) % 5)
+                a_full = (np.arange(int(np.prod(full)), dtype=np.float32).reshape(full) % 7)
+                for style in ("scalar", "list", "default"):
+                    if style == "scalar":
+                        cal = {"origin": {"s": 1}, "sampling": {"s": "1/2"}, "units": {"s": "nm"}}
+                    elif style == "list":
+                        cal = {"origin": {"l": [fj(Fraction(k, 2)) for k in range(nd)]}, "sampling": {"l": [fj(Fraction(k + 1, 4)) for k in range(nd)]},
+                               "units": {"l": [UNITS[k] for k in range(nd)]}}
+                    else:
+                        cal = {"origin": None, "sampling": None, "units": None}
+                    setter = {"op": "set_array", "array": arr_json(a_small), "dtype": "int16"}
+                    if REQ[cls] is not None:      # construction from data that are `short` axes short, then an op on the result
+                        new = dict({"op": "new", "cls": cls, "array": arr_json(a_small), "dtype": "int16"}, **cal)
+                        run_history(ctx, drv, new, [{"op": "getitem", "ix": [{"s": [None, None, None]}], "follow": True}, copy.deepcopy(setter)],
+                                    stream="expand-dims", max_ops=2)
+                        n += 1
+                    new = dict({"op": "new", "cls": cls, "array": arr_json(a_full), "dtype": "float32"}, **cal)
+                    run_history(ctx, drv, new, [copy.deepcopy(setter), {"op": "copy", "follow": True}, {"op": "bin", "f": {"one": 1}, "axes": None, "mean": False, "inplace": True}],
+                                stream="expand-dims", max_ops=3)
+                    n += 1
+    ctx.dist["expand-dims:histories"] += n
+
+
 def run(ctx):
     from qv.driver import Driver
     drv = Driver("C03")
     try:
         if not ctx.search_mode:
+            run_expand(ctx, drv)
             run_systematic(ctx, drv, 2)
             if ctx.thorough():
                 run_systematic(ctx, drv, 3)
